@@ -2703,3 +2703,88 @@ V('c18-modutf7-twin-removeprefix', 'C18', 'R18.9', MODUTF7,
   '''    src_utf7 = src.encode('utf-7')
     payload = src_utf7.removeprefix(b'+').removesuffix(b'-')
     return payload.replace(b'/', b',')''', expect='silent')
+
+# ---------------------------------------------------------------- stdlib facts
+PARSEDPY = 'pymap/mime/parsed.py'
+RESPFETCH = 'pymap/parsing/response/fetch.py'
+V('c06-revert-header-registry-handler', 'C06', 'R6.15', PARSEDPY,
+  '''            try:
+                header = cls._registry(hdr_tuple[0], hdr_tuple[1])
+            except Exception:
+                # the email package raises assorted exceptions on malformed
+                # values, e.g. an RFC 2231 parameter that cannot be decoded
+                # with its charset, treat the header value as not present
+                continue
+            yield header''',
+  '''            yield cls._registry(hdr_tuple[0], hdr_tuple[1])''')
+V('c06-header-registry-valueerror-only', 'C06', 'R6.15', PARSEDPY,
+  '            except Exception:\n                # the email package',
+  '            except ValueError:\n                # the email package')
+V('c06-header-registry-twin-baseexception', 'C06', 'R6.15', PARSEDPY,
+  '            except Exception:\n                # the email package',
+  '            except (Exception, RecursionError):\n                # the email package',
+  expect='silent')
+V('c06-revert-sender-address', 'C06', 'R6.16', RESPFETCH,
+  '''            addresses.extend(header.addresses)''',
+  '''            if isinstance(header, SingleAddressHeader):
+                addresses.append(header.address)
+            else:
+                addresses.extend(header.addresses)''')
+V('c06-sender-address-twin-handled', 'C06', 'R6.16', RESPFETCH,
+  '''            addresses.extend(header.addresses)''',
+  '''            if isinstance(header, SingleAddressHeader):
+                try:
+                    addresses.append(header.address)
+                except ValueError:
+                    addresses.extend(header.addresses)
+            else:
+                addresses.extend(header.addresses)''', expect='silent')
+V('c07-revert-empty-address-list', 'C07', 'R7.12', RESPFETCH,
+  '''        addresses: list[Address] = []
+        for header in self.headers:
+            addresses.extend(header.addresses)
+        if addresses:
+            return List(''',
+  '''        if self.headers:
+            addresses: list[Address] = []
+            for header in self.headers:
+                addresses.extend(header.addresses)
+            return List(''')
+V('c07-params-list-unguarded', 'C07', 'R7.12', RESPFETCH,
+  '''        if self.params:
+            values = [(String.build(key), String.build(value))
+                      for key, value in self.params.items()]
+            return List(chain.from_iterable(values))
+        else:
+            return Nil()''',
+  '''        if self.params is not None:
+            values = [(String.build(key), String.build(value))
+                      for key, value in self.params.items()]
+            return List(chain.from_iterable(values))
+        else:
+            return Nil()''')
+V('c07-address-list-twin-early-nil', 'C07', 'R7.12', RESPFETCH,
+  '''        if addresses:
+            return List([self._parse(address)
+                         for address in addresses])
+        else:
+            return Nil()''',
+  '''        if not addresses:
+            return Nil()
+        return List([self._parse(address)
+                     for address in addresses])''', expect='silent')
+V('c07-revert-disposition-string', 'C07', 'R7.13', RESPFETCH,
+  '''                     _ParamsList(self.content_type_params),
+                     _Disposition(self.content_disposition),''',
+  '''                     _ParamsList(self.content_type_params),
+                     String.build(self.content_disposition),''')
+V('c07-disposition-writer-bare-string', 'C07', 'R7.13', RESPFETCH,
+  '''            return List([String.build(self.header.content_disposition),
+                         _ParamsList(self.header.params)])''',
+  '''            return String.build(self.header.content_disposition)''')
+V('c07-revert-empty-multipart', 'C07', 'R7.14', MSGPY,
+  "        if maintype == 'multipart' and msg.body.has_nested:",
+  "        if maintype == 'multipart':")
+V('c07-empty-multipart-twin-nested', 'C07', 'R7.14', MSGPY,
+  "        if maintype == 'multipart' and msg.body.has_nested:",
+  "        if maintype == 'multipart' and msg.body.nested:", expect='silent')
